@@ -218,6 +218,11 @@ def refform_case(job):
         r = drive.run(['generateIndex', '-o', idx, '--quiet'] + drive.ref_argv(E.ref_dir('R1')) + cargv)
         if not r['ok']:
             return dict(ok=False, exc='generateIndex: ' + str(r['exc']))
+        # the directory then receives a second pool (updateIndex with other parameters): the first one must still be served
+        other = ['--cleavage-rule', 'arg-c', '--miscleavage', 0, '--min-length', 6]
+        r = drive.run(['updateIndex', '--index-dir', idx, '--quiet'] + other)
+        if not r['ok']:
+            return dict(ok=False, exc='updateIndex: ' + str(r['exc']))
         (d / 'ready').write_text('1')
     vs = E.small_alphabet(ref, 'ENST01', 30 + 7 * case_i, reduced=True)
     v = vs[case_i % len(vs)]
